@@ -17,6 +17,7 @@ TRACE: seeded sessions against glas_verif_server with GLAS_VERIF_SCHED / GLAS_VE
 import json, os, random, re, shutil, time
 from concurrent.futures import ThreadPoolExecutor
 import vlib, lsp
+from checks import server_common
 
 DEADLINE = 60.0          # a request not answered within this time is a hang (the violation), never a tool error
 MAX_INFLIGHT = 8
@@ -28,8 +29,8 @@ METHODS = {"hover": "textDocument/hover", "definition": "textDocument/definition
            "rename": "textDocument/rename", "semFull": "textDocument/semanticTokens/full",
            "semRange": "textDocument/semanticTokens/range", "syntaxTree": "glas/syntaxTree"}
 MC_ACTIONS = ["M_Dequeue", "M_SpawnTask", "M_PollTasks", "M_LockVfs", "M_ApplyEdit", "M_UnlockVfs", "M_TakeChange",
-              "M_RequestCancel", "M_AcquireDbWrite", "M_SetInputs", "M_SpawnDiag", "D_Emit", "E_Publish", "T_Start", "T_Aborted",
-              "T_ReadVfs", "T_QueryStep", "T_QueryDone", "T_ConvertWithVfs", "T_Return", "D_Return", "C_Edit", "C_Request"]
+              "M_RequestCancel", "M_AcquireDbWrite", "M_SetInputs", "M_SpawnDiagT", "D_Emit", "E_Publish", "T_Start",
+              "T_ReadVfs", "T_QueryStep", "T_QueryDone", "T_ConvertWithVfs", "T_Return", "D_Return", "C_EditT", "C_RequestI"]
 
 
 # --------------------------------------------------------------------------------------------------------------
@@ -204,7 +205,7 @@ class SessionResult:
         self.problems = []       # (features, detail) found by the driver itself
         self.lines = []          # merged trace for TLC
         self.script = []
-        self.nreq = self.nedit = 0
+        self.nreq = self.nedit = self.batch = 0
         self.hung = False
 
 
@@ -238,7 +239,8 @@ def run_session(base, sid, seed, two_docs, rounds, mutate_trace=None):
         for d in docs:
             i = sess.new_id()
             m = {"jsonrpc": "2.0", "id": i, "method": "glas/syntaxTree", "params": {"textDocument": {"uri": d.uri}}}
-            res.script.append(("req", d.name, i, "syntaxTree", fnv(d.text)))
+            res.batch += 1
+            res.script.append(("req", d.name, i, "syntaxTree", res.batch, d.tok()))
             sess.send_batch([m])
             r = sess.wait(i, DEADLINE)
             if r is None:
@@ -254,6 +256,7 @@ def run_session(base, sid, seed, two_docs, rounds, mutate_trace=None):
         sess.wait_quiet(quiet=0.2, timeout=10.0)
         evs = read_trace(trace_path)
         quiesce_marks.append((evs[-1]["seq"] if evs else 0, toks))
+        res.script.append(("quiesce", None, None, None, -1))
         return True
 
     try:
@@ -272,6 +275,7 @@ def run_session(base, sid, seed, two_docs, rounds, mutate_trace=None):
             ops = ["r"] * nreq + ["e"] * nedits
             rnd.shuffle(ops)
             msgs, ids = [], []
+            res.batch += 1
             for op in ops:
                 d = rnd.choice(docs)
                 if op == "e":
@@ -280,14 +284,14 @@ def run_session(base, sid, seed, two_docs, rounds, mutate_trace=None):
                     d.commit(new)
                     msgs.append({"jsonrpc": "2.0", "method": "textDocument/didChange",
                                  "params": {"textDocument": {"uri": d.uri, "version": d.version}, "contentChanges": changes}})
-                    res.script.append(("edit", d.name, d.tok()))
+                    res.script.append(("edit", d.name, d.tok(), None, res.batch))
                     res.nedit += 1
                 else:
                     kind = rnd.choice(REQ_KINDS)
                     i = sess.new_id()
                     ids.append(i)
                     msgs.append({"jsonrpc": "2.0", "id": i, "method": METHODS[kind], "params": make_request(rnd, d, kind)})
-                    res.script.append(("req", d.name, i, kind, fnv(d.text)))
+                    res.script.append(("req", d.name, i, kind, res.batch, d.tok()))
                     res.nreq += 1
             mode = rnd.randrange(3)
             sess.send_batch(msgs, chunks=[1, 2, len(msgs)][mode], gap=[0, 0.0005, rnd.choice([0, 0.0002, 0.002])][mode])
@@ -315,7 +319,8 @@ def run_session(base, sid, seed, two_docs, rounds, mutate_trace=None):
                 sess.send_batch([{"jsonrpc": "2.0", "method": "textDocument/didChange",
                                   "params": {"textDocument": {"uri": d.uri, "version": d.version},
                                              "contentChanges": [{"range": {"start": a, "end": a}, "text": tail}]}}])
-                res.script.append(("edit", d.name, d.tok()))
+                res.batch += 1
+                res.script.append(("edit", d.name, d.tok(), None, res.batch))
                 sess.wait_quiet(quiet=0.3, timeout=30.0)     # one document at a time: the probe itself must not race
             ok = quiesce("probe")
             for d in docs:
@@ -363,14 +368,35 @@ def merge(res, docs, by_uri, evs, responses, quiesce_marks, sess):
     names = {d.name for d in docs}
     first = {d.name: d.tok(0) for d in docs}
     lines = [{"ev": "Reset", "sess": sid, "docs": {n: first.get(n, "ABSENT") for n in ("d1", "d2")}}]
-    client = [s for s in res.script]            # FIFO of what the client sent, in order
-    ci = 0
+    client = list(res.script)                   # what the client sent, in order; element [4] = batch number
     task_doc, task_kind, task_req, diag_res, has_qd = {}, {}, {}, {}, set()
     for e in evs:
         if e["ev"] == "DiagError":
             diag_res[e["task"]] = "cancelled" if e["cancelled"] else "err"
         if e["ev"] == "QueryDone":
             has_qd.add(e["task"])
+    # request k of the client <-> k-th Spawn of a request task (the main loop takes messages in arrival order)
+    req_spawns = [e["task"] for e in evs if e["ev"] == "Spawn" and not e["label"].startswith("diag ")]
+    reqs = [s for s in client if s[0] == "req"]
+    res.script = [s for s in res.script if s[0] != "quiesce"]
+    task_of_id = {s[2]: t for s, t in zip(reqs, req_spawns)}
+    state = {"next": 0, "open": set()}          # next message to announce; request ids of the announced batches not yet returned
+
+    def announce(out):
+        """Send lines of the next batch(es): a batch is sent once every request of the previous ones has returned"""
+        while state["next"] < len(client) and not state["open"] and client[state["next"]][0] != "quiesce":
+            b = client[state["next"]][4]
+            while state["next"] < len(client) and client[state["next"]][4] == b:
+                s = client[state["next"]]
+                state["next"] += 1
+                if s[0] == "edit":
+                    out.append({"ev": "Send", "k": "change", "d": s[1], "tok": s[2]})
+                else:
+                    t = task_of_id.get(s[2], 0)
+                    if t:
+                        state["open"].add(t)
+                    out.append({"ev": "Send", "k": "req", "d": s[1], "t": t, "rk": "conv" if t in has_qd else "plain",
+                                "method": METHODS[s[3]]})
 
     def tok_for(doc, files):
         h = files.get(doc.uri)
@@ -383,20 +409,22 @@ def merge(res, docs, by_uri, evs, responses, quiesce_marks, sess):
 
     out = []
     marks = list(quiesce_marks)
+
+    def quiesce_line(out):
+        out.append({"ev": "Quiesce", "docs": {n: marks[0][1].get(n, "ABSENT") for n in ("d1", "d2")}})
+        marks.pop(0)
+        if state["next"] < len(client) and client[state["next"]][0] == "quiesce":
+            state["next"] += 1
+        announce(out)
+    announce(out)
     for e in evs:
         ev = e["ev"]
         while marks and e["seq"] > marks[0][0]:
-            out.append({"ev": "Quiesce", "docs": {n: marks[0][1].get(n, "ABSENT") for n in ("d1", "d2")}})
-            marks.pop(0)
+            quiesce_line(out)
         if ev == "DocStoreUpdated":
             d = by_uri.get(e["uri"])
             if d is None:
                 continue
-            if ci < len(client):
-                s = client[ci]
-                ci += 1
-                out.append({"ev": "Send", "k": "change", "d": s[1], "tok": s[2]} if s[0] == "edit" else
-                           {"ev": "Send", "k": "req", "d": s[1], "t": 0, "rk": "plain", "_id": s[2]})
             out.append({"ev": "DocStoreUpdated", "d": d.name, "free": e["vfs_free"], "tok": tok_for(d, e["files"])})
         elif ev == "Spawn":
             t = e["task"]
@@ -405,18 +433,13 @@ def merge(res, docs, by_uri, evs, responses, quiesce_marks, sess):
                 task_kind[t], task_doc[t] = "diag", d
                 out.append({"ev": "Spawn", "kind": "diag", "t": t, "d": d.name if d else "?"})
             else:
-                if ci < len(client):
-                    s = client[ci]
-                    ci += 1
-                    if s[0] == "req":
-                        task_req[t] = s[2]
-                        d = next(x for x in docs if x.name == s[1])
-                        task_kind[t], task_doc[t] = "req", d
-                        out.append({"ev": "Send", "k": "req", "d": s[1], "t": t, "rk": "conv" if t in has_qd else "plain",
-                                    "method": METHODS[s[3]]})
-                    else:
-                        out.append({"ev": "Send", "k": "change", "d": s[1], "tok": s[2]})
-                out.append({"ev": "Spawn", "kind": "req", "t": t, "d": "", "label": e["label"]})
+                k = req_spawns.index(t)
+                if k < len(reqs):
+                    s = reqs[k]
+                    task_req[t] = s[2]
+                    task_kind[t], task_doc[t] = "req", next(x for x in docs if x.name == s[1])
+                out.append({"ev": "Spawn", "kind": "req", "t": t, "d": "", "label": e["label"],
+                            "tok": reqs[k][5] if k < len(reqs) else ""})
         elif ev == "TaskStart":
             out.append({"ev": "TaskStart", "t": e["task"]})
         elif ev == "ReadVfs":
@@ -437,6 +460,8 @@ def merge(res, docs, by_uri, evs, responses, quiesce_marks, sess):
             t = e["task"]
             r = final_res(t)
             out.append({"ev": "TaskReturn", "t": t, "res": "err" if r == "none" else r})
+            state["open"].discard(t)
+            announce(out)
         elif ev == "ApplyBegin":
             out.append({"ev": "ApplyBegin", "free": e["vfs_free"]})
         elif ev == "ApplyEnd":
@@ -445,8 +470,7 @@ def merge(res, docs, by_uri, evs, responses, quiesce_marks, sess):
             d = by_uri.get(e["uri"])
             out.append({"ev": ev, "d": d.name if d else "?", "n": e["n"]})
     while marks:
-        out.append({"ev": "Quiesce", "docs": {n: marks[0][1].get(n, "ABSENT") for n in ("d1", "d2")}})
-        marks.pop(0)
+        quiesce_line(out)
     # a cancelled query noticed the flag between ApplyBegin and ApplyEnd of the change that waited for its snapshot:
     # place its QueryEnd right before the first ApplyEnd / its own TaskReturn after its ReadVfs
     fixed = []
@@ -564,3 +588,165 @@ def run_sessions(out, seed, sids, tier, name, jobs=8, mutate_trace=None, report=
             for f, dt in r.problems:
                 out.report(f, dt)
     return results
+
+
+# --------------------------------------------------------------------------------------------------------------
+# F18: more simultaneous requests than the concurrency layer admits
+
+def f18_probe(out, seed, n=24):
+    base = vlib.workdir("c16-f18")
+    root = os.path.join(base, "p")
+    os.makedirs(os.path.join(root, "src"))
+    open(os.path.join(root, "gleam.toml"), "w").write('name = "p"\nversion = "0.1.0"\n')
+    text = gen_module(random.Random(seed), 40)
+    path = os.path.join(root, "src", "d1.gleam")
+    open(path, "w").write(text)
+    sess = lsp.Session(root, stderr_path=os.path.join(root, "stderr.log"))
+    try:
+        if sess.initialize() is None:
+            raise vlib.ToolError("server did not answer initialize")
+        sess.did_open(path, text)
+        sess.wait_quiet(0.3, 20)
+        doc = Doc("d1", path, text)
+        rnd = random.Random(seed)
+        ids, msgs = [], []
+        for _ in range(n):
+            i = sess.new_id()
+            ids.append(i)
+            msgs.append({"jsonrpc": "2.0", "id": i, "method": METHODS["references"], "params": make_request(rnd, doc, "references")})
+        sess.send_batch(msgs)
+        t_end = time.time() + 15.0
+        missing = [i for i in ids if sess.wait(i, max(0.0, t_end - time.time())) is None]
+        out.cov["evaluations"] += n
+        if missing:
+            out.report({"what": "hang", "probe": "f18", "in_flight": n, "limit": os.cpu_count()},
+                       {"requests": n, "unanswered": len(missing), "alive": sess.alive(),
+                        "note": "n simultaneous references requests in one write; none of the unanswered ones arrives within 15 s"})
+        return len(missing)
+    finally:
+        sess.p.kill()
+        sess.close()
+        shutil.rmtree(base, ignore_errors=True)
+
+
+# --------------------------------------------------------------------------------------------------------------
+
+def mc(out, tier):
+    ok_cfgs = ["c1", "a1", "live2"] + (["c2", "a2", "live", "f18fix"] if tier == "thorough" else [])
+    bad_cfgs = {"x_mix": "NoMixture", "x_diag": "Convergence", "x_hold": "NoDeadlock", "x_snap": "IssuedVersion", "x_f18": "NoDeadlock"}
+    if tier == "thorough":
+        bad_cfgs.update({"x_mix1": "NoMixture", "x_diag2": "Convergence"})
+    for c in ok_cfgs:
+        r = vlib.tlc("Server", f"Server_{c}.cfg", workers=8, timeout=3000, coverage=(c == "c1"), heap="8g")
+        vlib.require_ok(r, "Server " + c)
+        out.add_tlc(r, "MC " + open(os.path.join(vlib.SPEC, f"Server_{c}.cfg")).readline().strip("\\* \n"))
+        if c == "c1":
+            out.cov["action_coverage"].update(server_common.require_actions(r, MC_ACTIONS, "Server (conc)"))
+    for c, inv in bad_cfgs.items():
+        r = vlib.tlc("Server", f"Server_{c}.cfg", workers=8, timeout=900)
+        if not r.violated or f"Invariant {inv} is violated" not in r.out:
+            raise vlib.ToolError(f"Server_{c}.cfg: {inv} was expected to be violated (vacuity / design finding)")
+        out.add_tlc(r, f"MC expected violation of {inv}: " + open(os.path.join(vlib.SPEC, f"Server_{c}.cfg")).readline().strip("\\* \n"))
+
+
+def selftest(out, seed):
+    """Binding demonstration: a recorded session is accepted; the same lines with one field corrupted or one hook event
+    dropped are rejected at exactly that line."""
+    import copy
+    base = vlib.workdir("c16-selftest")
+    r = run_session(base, 0, seed, True, 8)
+    r.two_docs, r.rounds = True, 8
+    if r.hung or r.problems and any(f["what"] not in ("diag_not_final",) for f, _ in r.problems):
+        raise vlib.ToolError("selftest session did not run cleanly: " + json.dumps(r.problems)[:500])
+    verdict, bad = validate(out, [r], "self0", report=False)
+    if verdict[0] != "accepted":
+        raise vlib.ToolError("selftest: unmodified trace rejected at line %s" % bad)
+    lines = r.lines
+
+    def first(pred, start=5):
+        return next(i for i in range(start, len(lines)) if pred(lines[i]))
+    cases = []
+    i = first(lambda l: l["ev"] == "DocStoreUpdated")
+    cases.append(("corrupt DocStoreUpdated.tok (stored text of an older version)", i, "set", ("tok", lines[0]["docs"][lines[i]["d"]]), i))
+    i = first(lambda l: l["ev"] == "ApplyBegin", len(lines) // 3)
+    cases.append(("corrupt ApplyBegin.free (guard still held)", i, "set", ("free", False), i))
+    i = first(lambda l: l["ev"] == "ReadVfs", len(lines) // 2)
+    cases.append(("corrupt ReadVfs.tok", i, "set", ("tok", "d1#0"), i))
+    i = first(lambda l: l["ev"] == "ApplyEnd", len(lines) // 3)
+    cases.append(("drop one ApplyEnd event", i, "drop", None, i))
+    i = first(lambda l: l["ev"] == "TaskStart", len(lines) // 2)
+    nxt = next(j for j in range(i + 1, len(lines)) if lines[j].get("t") == lines[i]["t"])
+    cases.append(("drop one TaskStart event (rejected at the task's next event)", i, "drop", None, nxt - 1))
+    i = first(lambda l: l["ev"] == "Publish", len(lines) // 2)
+    cases.append(("drop one Publish event", i, "drop", None, None))
+    report = []
+    for (what, i, op, arg, expect) in cases:
+        r2 = copy.copy(r)
+        r2.lines = copy.deepcopy(lines)
+        if op == "set":
+            r2.lines[i][arg[0]] = arg[1]
+        else:
+            del r2.lines[i]
+        verdict, bad = validate(out, [r2], "self1", report=False)
+        ok = verdict[0] == "rejected" and (expect is None or bad == expect + 1)
+        report.append({"mutation": what, "line": i + 1, "verdict": verdict[0], "rejected_at": bad, "as_expected": ok})
+        vlib.log("selftest:", json.dumps(report[-1]))
+        if not ok:
+            raise vlib.ToolError("selftest: trace mutation not rejected where expected: " + json.dumps(report[-1]))
+    out.cov["selftest"] = report
+
+
+def run(out, tier, seed):
+    if os.environ.get("VERIF_SELFTEST"):
+        selftest(out, seed)
+        return
+    mc(out, tier)
+    nsess = 60 if tier == "quick" else 2000
+    chunk = 60 if tier == "quick" else 100
+    n_acc = n_lines = n_req = n_edit = 0
+    for c0 in range(0, nsess, chunk):
+        sids = list(range(c0, min(nsess, c0 + chunk)))
+        results = run_sessions(out, seed, sids, tier, f"{c0}", jobs=8)
+        todo = [r for r in results if not r.hung and len(r.lines) > 1]
+        # a rejected session stops the validation of the file: validate the rest again without it
+        while todo:
+            verdict, bad = validate(out, todo, f"{c0}")
+            n_acc += sum(1 for v in verdict.values() if v == "accepted")
+            todo = [r for r in todo if verdict[r.sid] == "unchecked"]
+        n_lines += sum(len(r.lines) for r in results)
+        n_req += sum(r.nreq for r in results)
+        n_edit += sum(r.nedit for r in results)
+        if c0 == 0:
+            out.cov["samples"] += results[0].lines[1:7]
+    f18_probe(out, seed)
+    out.cov["traces_validated_against_impl"] += n_acc
+    out.cov["evaluations"] += n_req + n_edit
+    out.cov["distinct_nontrivial"] += n_acc
+    out.cov["trace_lines"] = n_lines
+    out.cov["exhaustive"] = False
+    out.cov["rule"] = ("%d seeded sessions of the real server (GLAS_VERIF_SCHED delays, GLAS_VERIF_TRACE events): 6-10 rounds, each a shuffled "
+                       "burst of 0-3 didChange and 1-8 requests (11 kinds) written in 1, 2 or n chunks on 1-2 documents of 2-5 kB; %d requests, "
+                       "%d edits, %d merged trace lines validated by TLC against Trace_Server (probed lock state / store content at every "
+                       "event, no apply completes while a snapshot lives, one response per request, text convergence at quiescence; "
+                       "NoMixture and diagnostics provenance reported by monitors); plus the driver's own checks (deadline %ds per request, "
+                       "publishDiagnostics stream = hook stream, diagnostics content oracle, exit status) and one F18 probe (24 simultaneous "
+                       "requests). non-trivial = accepted sessions" % (nsess, n_req, n_edit, n_lines, int(DEADLINE)))
+    out.assumptions += ["hook events carry probed state; their global sequence number orders them; TaskReturn is logged after the snapshot "
+                        "was dropped, so the trace spec lets T_Return happen earlier than its line",
+                        "the final text is read back through glas/syntaxTree (rowan abbreviates tokens >= 25 bytes: prefix compared) and "
+                        "through the fingerprints of the stored text", "TLC/SANY, Json/IOUtils modules"]
+
+
+def replay(out, path):
+    d = json.load(open(path))["detail"]
+    if "sid" not in d:
+        f18_probe(out, 1)
+        return
+    base = vlib.workdir("c16-replay")
+    r = run_session(base, d["sid"], d["seed"], bool(d.get("two_docs")), int(d.get("rounds") or 8))
+    r.two_docs, r.rounds = d.get("two_docs"), d.get("rounds")
+    for f, dt in r.problems:
+        out.report(f, dt)
+    if not r.hung and len(r.lines) > 1:
+        validate(out, [r], "replay")
+    out.cov["traces_validated_against_impl"] += 1
